@@ -24,17 +24,21 @@ import (
 
 // Case is one member of the enumerated space.
 type Case struct {
-	Path     string `json:"path"`          // call path, see callPaths
-	Repo     string `json:"repo"`          // repository URL spelling (the credentials belong to it)
-	Chart    string `json:"chart"`         // chart URL spelling (index entry / href)
-	Pass     bool   `json:"pass"`          // pass-credentials
-	Kind     string `json:"kind"`          // request kind in focus: chart | prov | index
-	Redirect string `json:"redirect"`      // none | evil | port : answer the request in focus with a 302
-	Seq      []Call `json:"seq,omitempty"` // call path getter-history only: the calls made on one getter (history.go)
+	Path     string `json:"path"`               // call path, see callPaths
+	Repo     string `json:"repo"`               // repository URL spelling (the credentials belong to it)
+	Chart    string `json:"chart"`              // chart URL spelling (index entry / href)
+	Pass     bool   `json:"pass"`               // pass-credentials
+	Kind     string `json:"kind"`               // request kind in focus: chart | prov | index
+	Redirect string `json:"redirect"`           // none | evil | port : answer the request in focus with a 302
+	DepRepo  string `json:"dep_repo,omitempty"` // call path manager-depurl only: repository URL as spelled in the dependency (Chart.yaml)
+	Seq      []Call `json:"seq,omitempty"`      // call path getter-history only: the calls made on one getter (history.go)
 }
 
 func (c Case) canon() string {
 	s := fmt.Sprintf("%s|%s|%s|%v|%s|%s", c.Path, c.Repo, c.Chart, c.Pass, c.Kind, c.Redirect)
+	if c.DepRepo != "" {
+		s += "|dep=" + c.DepRepo
+	}
 	for _, cl := range c.Seq {
 		s += fmt.Sprintf("|%s,%s,%s,%v", cl.Href, cl.Opts, cl.Repo, cl.Pass)
 	}
@@ -53,6 +57,7 @@ const (
 	pMgrRefresh = "manager-refresh" // Manager.Update including the repository index refresh
 	pMgrBuild   = "manager-build"   // Manager.Build from the Chart.lock a previous Update wrote
 	pMgrDecoy   = "manager-2repos"  // Manager.Update with a second, credential-less repository configured first whose index lists the same absolute chart URL
+	pMgrDepURL  = "manager-depurl"  // Manager.Update (with index refresh) where the dependency spells its repository URL differently from repositories.yaml
 	decoyName   = "a"
 	repoName    = "r"
 	otherChart  = "other-0.1.0.tgz"
@@ -342,7 +347,7 @@ func execCase(c Case) (res Result) {
 		_, err := p.Run("x")
 		return fail(err)
 
-	case pMgrUpdate, pMgrRefresh, pMgrBuild, pMgrDecoy:
+	case pMgrUpdate, pMgrRefresh, pMgrBuild, pMgrDecoy, pMgrDepURL:
 		entries := []*repo.Entry{credEntry(c)}
 		indexes := map[string][]byte{repoName: sc.index}
 		if c.Path == pMgrDecoy {
@@ -364,11 +369,21 @@ func execCase(c Case) (res Result) {
 		os.Remove(filepath.Join(parent, "Chart.lock"))
 		os.Remove(filepath.Join(parent, "charts", "x.tgz"))
 		os.Remove(filepath.Join(parent, "charts", "x.tgz.prov"))
-		chartYAML := "apiVersion: v2\nname: parent\nversion: 0.1.0\ndependencies:\n- name: x\n  version: " + depVersion + "\n  repository: " + yamlQuote(c.Repo) + "\n"
+		dep := c.Repo
+		if c.Path == pMgrDepURL {
+			dep = c.DepRepo
+			// indexes of unmanaged repositories cached by earlier cases
+			if old, _ := filepath.Glob(filepath.Join(w.repoCache(), "helm-manager-*")); len(old) > 0 {
+				for _, f := range old {
+					os.Remove(f)
+				}
+			}
+		}
+		chartYAML := "apiVersion: v2\nname: parent\nversion: 0.1.0\ndependencies:\n- name: x\n  version: " + depVersion + "\n  repository: " + yamlQuote(dep) + "\n"
 		if err := os.WriteFile(filepath.Join(parent, "Chart.yaml"), []byte(chartYAML), 0o644); err != nil {
 			return fail(err)
 		}
-		m := &downloader.Manager{Out: io.Discard, ChartPath: parent, Verify: verify, SkipUpdate: c.Path != pMgrRefresh, Getters: provs,
+		m := &downloader.Manager{Out: io.Discard, ChartPath: parent, Verify: verify, SkipUpdate: c.Path != pMgrRefresh && c.Path != pMgrDepURL, Getters: provs,
 			RepositoryConfig: w.repoConfig(), RepositoryCache: w.repoCache()}
 		if c.Path == pMgrBuild {
 			// a first Update (no redirect, not recorded) writes Chart.lock; Build is the call under observation
